@@ -1,5 +1,12 @@
-(* C07 — nsync_run_once runs its function exactly once and nobody returns early.
-   Theorems about Model/OnceModel.v; statements only, proofs in Proof/OnceProof.v. *)
+(* C07 — nsync_run_once runs its function exactly once and no call returns before that run has COMPLETED.
+   Theorems about Model/OnceModel.v; statements only, proofs in Proof/OnceProof.v.
+   The model has the call of the once-function as two steps (f-begin, f-end; the ghost [completed] is set at f-end) and
+   the store of 2 as a later step; the internal lock once_mu and condition variable once_cv are abstract steps; the
+   model is parameterised by an environment [e]: an ARBITRARY map [slot e] from once objects to once_sync slots (objects
+   may share once_mu / once_cv), [fterm e o] (the function of object o returns), [lockable e s] (nsync_mu_lock on the
+   once_mu of slot s returns when the mutex is free).  Every theorem is for any environment; only C07_no_stuck and
+   C07_progress assume [env_ok e] (all functions return, all locks obtainable), and C07_f_must_return /
+   C07_lock_must_be_obtainable show that neither assumption can be dropped. *)
 From NsyncBase Require Import CSem.
 From NsyncGen Require Import Consts Sites.
 From NsyncModel Require Import OnceModel.
@@ -9,45 +16,160 @@ Import ListNotations.
 Local Open Scope Z_scope.
 
 Section C07.
+  Variable e : env.                            (* any map once -> slot, any terminating / non-terminating functions, any locks *)
   Variable progs : list (list (nat * bool)).   (* any number of callers, each any sequence of (object, blocking|spinning) calls *)
   Variable sched : list nat.                   (* any interleaving *)
-  Let w := run (init progs) sched.
+  Let w := run (init e progs) sched.
 
   (* the function of every object is started at most once ... *)
   Theorem C07_at_most_once : forall o, runs w o <= 1.
-  Proof. exact (at_most_once progs sched). Qed.
+  Proof. exact (at_most_once e progs sched). Qed.
 
-  (* ... no call returns before that run has completed ... *)
-  Theorem C07_not_early : early w = 0 /\ forall t o, In o (returned (get w t)) -> completed w o = true.
-  Proof. exact (not_early progs sched). Qed.
+  (* ... by at most one thread, the only one that ever performed the CAS 0 -> 1 on the word:
+     [wins w o] lists the threads whose CAS succeeded, [fbeg w o] the threads that entered the function *)
+  Theorem C07_winner_unique : forall o,
+    (length (wins w o) <= 1)%nat /\ (length (fbeg w o) <= 1)%nat /\ (fbeg w o = [] \/ fbeg w o = wins w o) /\
+    (completed w o = true -> fbeg w o = wins w o /\ length (fbeg w o) = 1%nat).
+  Proof. exact (winners_unique e progs sched). Qed.
+
+  (* ... no call returns before that run has completed: [completed] is set by the f-end step, not by the store ... *)
+  Theorem C07_not_early :
+    early w = 0 /\ forall t o, In o (returned (get w t)) -> completed w o = true /\ once w o = 2.
+  Proof. exact (not_early e progs sched). Qed.
+
+  (* ... because of the order CAS < f-begin < f-end < store of 2: the word is 2 only if f has returned, f has returned
+     only if it was entered, and it was entered only by the thread that won the CAS *)
+  Theorem C07_order : forall o,
+    (once w o = 2 -> completed w o = true) /\
+    (completed w o = true -> exists tw, fbeg w o = [tw] /\ wins w o = [tw]) /\
+    (fbeg w o <> [] -> exists tw, fbeg w o = [tw] /\ wins w o = [tw] /\ once w o <> 0).
+  Proof. exact (order_of_events e progs sched). Qed.
 
   (* ... and if any call on o has returned, the function ran exactly once *)
   Theorem C07_exactly_once : forall t o, In o (returned (get w t)) -> runs w o = 1.
-  Proof. exact (exactly_once progs sched). Qed.
+  Proof. exact (exactly_once e progs sched). Qed.
 
-  (* the word is 0 (fresh), 1 (exactly one winner is between its CAS and its store) or 2 (done, for ever) *)
+  (* the word is 0 (fresh: nobody has won), 1 (EXACTLY one winner tw is between its CAS and its store: it is the only
+     thread in [wins], every thread at a winner's pc is tw) or 2 (done, for ever: nobody is at a winner's pc) *)
   Theorem C07_word : forall o,
-    (once w o = 0 /\ runs w o = 0 /\ completed w o = false) \/
-    (once w o = 1 /\ runs w o = 1 /\ completed w o = false /\ exists t, winner_of w o t) \/
-    (once w o = 2 /\ runs w o = 1 /\ completed w o = true).
-  Proof. exact (word_states progs sched). Qed.
+    (once w o = 0 /\ wins w o = [] /\ fbeg w o = [] /\ completed w o = false /\ forall t, ~ winner_of w o t) \/
+    (once w o = 1 /\ exists tw, wins w o = [tw] /\ winner_of w o tw /\ (forall t, winner_of w o t -> t = tw) /\
+                     (fbeg w o = [] \/ fbeg w o = [tw])) \/
+    (once w o = 2 /\ (exists tw, wins w o = [tw] /\ fbeg w o = [tw]) /\ completed w o = true /\ forall t, ~ winner_of w o t).
+  Proof. exact (word_states e progs sched). Qed.
 
-  (* calls on a once that is already done return at their first step, touching nothing but the word (no lock, no wait) *)
+  (* the internal lock: two threads inside the once_mu critical section of objects with the same slot are the same
+     thread -- whatever the map from objects to slots -- and the holder of a once_mu is inside a BLOCKING call *)
+  Theorem C07_once_mu_exclusive : forall t1 t2 o1 o2,
+    holds_pc (pc (get w t1)) = Some o1 -> holds_pc (pc (get w t2)) = Some o2 ->
+    slot_of w o1 = slot_of w o2 -> t1 = t2.
+  Proof. exact (once_mu_exclusive e progs sched). Qed.
+
+  Theorem C07_holder : forall s h, mu w s = Some h ->
+    exists o, holds_pc (pc (get w h)) = Some o /\ slot_of w o = s /\ cur (get w h) = Some (o, false).
+  Proof. exact (holder_is_inside e progs sched). Qed.
+
+  (* every step on once_mu / once_cv (lock, unlock, blocked lock attempt, broadcast, beginning and end of the timed wait)
+     is made by a thread executing a blocking call: the spinning variants never touch them *)
+  Theorem C07_spin_takes_no_lock : forall t, lock_ev (snd (step w t)) = true ->
+    exists o, lock_pc (pc (get w t)) = Some o /\ cur (get w t) = Some (o, false).
+  Proof. exact (lock_events_blocking e progs sched). Qed.
+
+  (* a call (blocking or spinning) on a once that is already done returns at its first step: ONE load of the word (the
+     event is that load, not a lock step), the lock state, the words and every other thread are unchanged *)
   Theorem C07_done_nonblocking : forall t o sp rest,
     pc (get w t) = OIdle -> calls (get w t) = (o, sp) :: rest -> once w o = 2 ->
-    pc (get (fst (step w t)) t) = OIdle /\ In o (returned (get (fst (step w t)) t)) /\ snd (step w t) = EvLoad 1 2.
-  Proof. exact (done_nonblocking progs sched). Qed.
+    snd (step w t) = EvLoad 1 2 /\
+    pc (get (fst (step w t)) t) = OIdle /\ calls (get (fst (step w t)) t) = rest /\
+    returned (get (fst (step w t)) t) = o :: returned (get w t) /\
+    mu (fst (step w t)) = mu w /\ once (fst (step w t)) = once w /\
+    forall t', t' <> t -> get (fst (step w t)) t' = get w t'.
+  Proof. exact (done_nonblocking e progs sched). Qed.
 
-  (* nobody is stuck: whenever some caller is unfinished, some thread has a step that changes the state
-     (a loser can only be waiting for a winner that exists and can always proceed) *)
-  Theorem C07_no_stuck : forall t, (t < length (thr w))%nat -> unfinished w t -> exists t', productive w t'.
-  Proof. exact (no_stuck progs sched). Qed.
+  (* the timed wait of a blocking loser ends by the loser's OWN step (its deadline, at most 50 ms away), whatever the
+     others have done -- in particular when the winner is a SPINNING call, which does not broadcast (once.c:81-84) *)
+  Theorem C07_cvwait_times_out : forall t o, pc (get w t) = OCvWait o ->
+    pc (get (fst (step w t)) t) = OCvReacq o /\ snd (step w t) = EvCvEnd (slot_of w o).
+  Proof. exact (cvwait_times_out e progs sched). Qed.
+
+  (* nobody is stuck, for ANY mix of blocking and spinning callers and any sharing of slots -- provided every
+     once-function returns and every once_mu can be obtained when free ([env_ok e]: both hypotheses are explicit):
+     from every reachable world the system can run to completion (every caller idle, no call left), in at most
+     [rank w] further steps *)
+  Theorem C07_no_stuck : env_ok e ->
+    exists sched', (length sched' <= rank w)%nat /\ all_done (run (init e progs) (sched ++ sched')).
+  Proof. exact (no_stuck e progs sched). Qed.
+
+  (* the measure behind it ([rank], Model/OnceModel.v: remaining calls and remaining steps of every thread; a loser that
+     finds the word not yet 2 goes round its wait loop at a constant level): unless everybody has finished, SOME thread
+     has a step that strictly decreases it -- a loser whose re-read is fruitless is never the only thread that can move *)
+  Theorem C07_progress : env_ok e ->
+    all_done w \/ exists t, (rank (fst (step w t)) < rank w)%nat.
+  Proof. exact (progress e progs sched). Qed.
 End C07.
 
+(* the two hypotheses of C07_no_stuck cannot be dropped: a once-function that does not return keeps its caller inside
+   it for ever (and with it every caller of that object, by C07_not_early), a once_mu that cannot be obtained keeps a
+   blocking caller in front of it for ever -- whatever is scheduled *)
+Theorem C07_f_must_return : forall w t o sp, fterm (cfg w) o = false -> pc (get w t) = OFRun o sp ->
+  forall sched', get (run w sched') t = get w t.
+Proof. exact f_stuck_forever. Qed.
+
+Theorem C07_lock_must_be_obtainable : forall w t o z, lockable (cfg w) (slot_of w o) = false -> pc (get w t) = OLock o z ->
+  forall sched', get (run w sched') t = get w t.
+Proof. exact lock_stuck_forever. Qed.
+
+(* NOT PROVED (and not claimed, DESIGN.md 2.3): termination under every FAIR infinite schedule.  C07_no_stuck says that
+   completion is always POSSIBLE and C07_progress that some thread can always strictly progress; the temporal statement
+   below needs in addition that nsync_mu_lock is starvation-free for the winner against losers that keep re-taking
+   once_mu around their timed waits -- a fairness property of nsync_mu (C02), which the abstract lock of OnceModel
+   (free -> any contender may take it) does not have. *)
+Definition C07_fair_termination_full : Prop :=
+  forall (e : env) (progs : list (list (nat * bool))) (s : nat -> nat),
+    env_ok e ->
+    (forall t n, exists m, (n <= m)%nat /\ s m = t) ->           (* every thread is scheduled again and again *)
+    exists n, all_done (run (init e progs) (map s (seq 0 n))).
+
 Example C07_example : exists progs sched,
-  let w := run (init progs) sched in
-  runs w 0%nat = 1 /\ returned (get w 0%nat) = [0%nat] /\ returned (get w 1%nat) = [0%nat] /\ early w = 0.
+  let w := run (init env_mod64 progs) sched in
+  runs w 0%nat = 1 /\ wins w 0%nat = [0%nat] /\ returned (get w 0%nat) = [0%nat] /\ returned (get w 1%nat) = [0%nat] /\
+  early w = 0 /\ all_done w.
 Proof. exact example_two_callers. Qed.
 
-Print Assumptions C07_at_most_once. Print Assumptions C07_not_early. Print Assumptions C07_exactly_once.
-Print Assumptions C07_word. Print Assumptions C07_done_nonblocking. Print Assumptions C07_no_stuck. Print Assumptions C07_example.
+(* the mix the broadcast does not cover: a SPINNING winner (thread 0: no lock, no broadcast) beside a BLOCKING loser
+   (thread 1) that is asleep on once_cv when 2 is stored; its timed wait ends by its own step and it returns *)
+Example C07_example_spin_winner_blocking_loser :
+  let w := run (init env_mod64 mix_progs) mix_sched in
+  events (init env_mod64 mix_progs) mix_sched =
+    [ EvLoad 1 0; EvLoad 11 0; EvCas 12 true;
+      EvLoad 1 1; EvLoad 11 1; EvLock 0; EvLoad 15 1; EvCvRelease 0;
+      EvFBegin 0; EvFEnd 0; EvStore 14 2; EvLoad 15 2;
+      EvCvEnd 0; EvLock 0; EvLoad 15 2; EvUnlock 0 ] /\
+  all_done w /\ returned (get w 1%nat) = [0%nat] /\ early w = 0.
+Proof. exact example_spin_winner_blocking_loser. Qed.
+
+(* two once objects (indices 0 and 64) that share a slot under the map o -> o mod 64 *)
+Example C07_example_shared_slot :
+  let w := run (init env_mod64 share_progs) share_sched in
+  firstn 13 (events (init env_mod64 share_progs) share_sched) =
+    [ EvLoad 1 0; EvLoad 11 0; EvLock 0;
+      EvLoad 1 0; EvLoad 11 0; EvBlocked 0;
+      EvCas 12 true; EvUnlock 0;
+      EvLock 0; EvCas 12 true; EvUnlock 0;
+      EvFBegin 64; EvFEnd 64 ] /\
+  all_done w /\ runs w 0%nat = 1 /\ runs w 64%nat = 1 /\ early w = 0.
+Proof. exact example_shared_slot. Qed.
+
+Example C07_example_f_never_returns : forall sched',
+  let e := mk_env (fun o => o) (fun _ => false) (fun _ => true) in
+  pc (get (run (run (init e [[(0%nat, true)]]) [0; 0; 0; 0]%nat) sched') 0%nat) = OFRun 0 true.
+Proof. exact example_f_never_returns. Qed.
+
+Print Assumptions C07_at_most_once. Print Assumptions C07_winner_unique. Print Assumptions C07_not_early.
+Print Assumptions C07_order. Print Assumptions C07_exactly_once. Print Assumptions C07_word.
+Print Assumptions C07_once_mu_exclusive. Print Assumptions C07_holder. Print Assumptions C07_spin_takes_no_lock.
+Print Assumptions C07_done_nonblocking. Print Assumptions C07_cvwait_times_out.
+Print Assumptions C07_no_stuck. Print Assumptions C07_progress.
+Print Assumptions C07_f_must_return. Print Assumptions C07_lock_must_be_obtainable.
+Print Assumptions C07_example. Print Assumptions C07_example_spin_winner_blocking_loser.
+Print Assumptions C07_example_shared_slot. Print Assumptions C07_example_f_never_returns.
